@@ -5,6 +5,12 @@ G_NOTE = "Interleavings at hook granularity (executor/run-loop hand-off, stream 
 claimed = {
  "C01": ("graphsim", "Seeded search over random Pregel plans (fan-out/in, branches with scripted outcome sequences, cycles, nested graphs, step limits) x schedules; every run is compared with an independent reference superstep interpreter (result or error class, execution multiset, step bound, nested plan also run alone).", G_NOTE),
  "C02": ("graphsim", "Seeded search over random AllPredecessor graphs and Workflows (control/data/combined dependencies, mappings, branches incl. several on one node, skip cascades, nested graphs) x schedules; compared with an independent trigger/skip reference interpreter (result, execution multiset, at-most-once).", G_NOTE),
+ "C04": ("graphsim", "Seeded search over plans in all modes with drawn native-paradigm subsets, chunkings, stream/value state handlers, keys and mappings; the same compiled object is called through Invoke, Stream, Collect and Transform; every result must equal the reference model and the other paradigms; with an injected failing node every paradigm must fail. Two known findings (duplicate-key fan-in, missing map key) are exercised in their own configurations.", G_NOTE),
+ "C05": ("graphsim", "Seeded search over interrupted histories: interrupt-before/after sets at every nesting level, nodes asking for interrupt-and-rerun, resume through a bytes-only store with a freshly compiled runnable, paradigm changes between calls; differential oracle against the uninterrupted run of the same plan (reference model): output, execution multiset, state counter, bounded number of calls.", G_NOTE + " Plans whose uninterrupted run hits the step limit are not compared (the limit counts per call)."),
+ "C06": ("graphsim", "The interrupted histories of C05 (plus histories without checkpoint id and with failing store writes) observed by monitors over the recorded history: interrupt-before nodes start only after a reporting interrupt was resumed, nothing is submitted after an interrupt-after node was collected, reported node lists match the log at every nesting level, checkpoint written iff interrupt returned.", G_NOTE),
+ "C10": ("graphsim", "Seeded search over handler supplies (global, several graph-level options, designated by key and path), plans with parallel nodes and nested graphs, handler tasks that read or close their stream copies, and schedules; oracle over the recorded callback events: exactly one start-type and one end-type per handler and execution unit, right RunInfo, designated handlers only at their node, payloads, undisturbed data flow.", G_NOTE + " Tool-call callbacks are covered by the C17 engine only as far as the run's result; no race detector (Mode A)."),
+ "C11": ("graphsim", "Seeded search over stateful plans: every handler and ProcessState body performs read-yield-write inside the framework's lock and passes a mutual-exclusion monitor; oracle: monitor, lost-update counter, fresh state per run and per stateful nested execution, pre < node < post, model equality; state across interrupt/resume is checked by the C05 histories.", G_NOTE),
+ "C13": ("graphsim", "Seeded fault injection: 1-2 failing nodes at any depth (error sentinel, panic, error item mid-stream), context cancellation at a drawn scheduler step, step limit; oracle: errors.As/Is recover the sentinel, ErrExceedMaxSteps, context.Canceled; message names the node path; panic value in the error; no escaped panic, no process crash, no hang.", G_NOTE + " Tool and forwarder panics are exercised by C17 and C08."),
  "C03": ("graphsim", "Seeded search over schedules of executor goroutines and run loop (hook points inside the task manager hand-off) on plans with >=3 parallel nodes in batch and eager mode; oracle: model equality on every schedule, push/hand-off/collect conservation per run loop, deadlock detector, no return before executions finished, step budget.", G_NOTE),
  "C08": ("streamsim", "Seeded search over random stream operator trees (pipe/array/copy/merge/convert), producer and consumer tasks and schedules under the deterministic kernel; per-reader sequence algebra checked over the recorded history; deadlock, leftover-goroutine and writer-told monitors.",
          "Interleavings at hook granularity (every send/recv/close/once/select); multi-ready select decided by a seam; data races below hook granularity are not visible in Mode A."),
